@@ -42,6 +42,10 @@ func (c *compiler) compile() (string, error) {
 		var res interface{}
 		var err error
 
+		// errors are reported at the statement being evaluated, not at the last
+		// statement of an earlier block
+		c.curStmt = stmt
+
 		switch node := stmt.(type) {
 		case *ast.ReturnStatement:
 			res, err = c.evalReturnStatement(node)
